@@ -579,7 +579,7 @@ class Fmm:
             return c
         # directed: a perm-less Transpose (reverses every axis) next to an operand of another rank — the rule must
         # look at the rank of the TRANSPOSED operand (x for the first-operand rules, y for the second-operand rules)
-        if rng.random() < 0.14:
+        if rng.random() < 0.2:
             kind = rng.choice(["t1", "t2"])
             hi = rng.choice([3, 3, 4])
             tr_rank, other = rng.choice([(hi, 2), (2, hi)])
@@ -1721,4 +1721,103 @@ class Pipe:
         return "f32"
 
 
-FAMILIES = {f.name: f for f in [Rms, Skip, Gelu, BiasGelu, Softmax, Fmm, Rope, Sdpa, Mha, I2g, Attn, Gqa, Pqkv, Mhab, Pipe]}
+
+# =========================================================================== shape_optimization.ExtractDim (pre-pass of fuse_xformers)
+
+
+class ShapeOpt:
+    """Slice(Shape(Transpose(Reshape(x, Concat(d0,d1,d2,d3), allowzero=1), perm=[0,2,1,3])), starts, ends[, axes[, steps]])
+    — the causal-mask idiom `shape_optimization.ExtractDim` replaces by the dims themselves.  The rule runs in
+    `_pre_optimize` inside `fuse_xformers`, hence inside `optimize_for_ort`."""
+
+    name = "shapeopt"
+    ops = {"Identity", "Concat", "Constant"}
+    always_e2e = True
+
+    @staticmethod
+    def gen(rng):
+        n_in = rng.choice([3, 3, 3, 4, 5, 5])
+        if rng.random() < 0.4:  # directed: the rule fires; one, several or no dims selected, all bound conventions
+            st, en = rng.choice([(0, 1), (1, 2), (2, 3), (3, 4), (-1, I64MAX), (-2, -1), (0, 4), (1, 3), (-4, -1),
+                                 (0, I64MAX), (-5, 2), (3, 1), (4, 9), (2, -3)])
+            return {"fam": "shapeopt", "dims": [rng.choice([1, 2, 3]) for _ in range(4)], "n_in": 3, "start": st,
+                    "end": en, "axes": 0, "steps": 1, "allowzero": 1, "perm": [0, 2, 1, 3],
+                    "shape_start": rng.choice([None, 0]), "shape_end": None, "start_const": True, "dim_shape_known": True}
+        if rng.random() < 0.5:  # directed: everything nominal EXCEPT the spelled-out axes / steps inputs of the Slice
+            n5 = rng.random() < 0.7
+            stp = rng.choice([1, 2, 2, -1, -1]) if n5 else 1
+            st, en = rng.choice([(0, 4), (1, 3), (0, I64MAX), (2, 4), (-4, 4)]) if stp > 0 else rng.choice([(3, -5), (-1, -5), (2, 0)])
+            return {"fam": "shapeopt", "dims": [rng.choice([1, 2, 3]) for _ in range(4)], "n_in": 5 if n5 else 4,
+                    "start": st, "end": en, "axes": rng.choice([0, -1]), "steps": stp, "allowzero": 1, "perm": [0, 2, 1, 3],
+                    "shape_start": rng.choice([None, 0]), "shape_end": None, "start_const": True, "dim_shape_known": True}
+        return {"fam": "shapeopt", "dims": [rng.choice([1, 2, 3]) for _ in range(4)], "n_in": n_in,
+                "start": rng.choice([0, 0, 1, 2, 3, -1, -2, -4, -5, 4, 6]),
+                "end": rng.choice([1, 2, 3, 4, 4, -1, -2, 0, I64MAX, 9, -5]),
+                "axes": rng.choice([0, 0, -1]), "steps": rng.choice([1, 1, 2, -1]) if n_in == 5 else 1,
+                "allowzero": rng.choice([1] * 6 + [0, None]), "perm": rng.choice([[0, 2, 1, 3]] * 7 + [[0, 1, 2, 3], [0, 2, 3, 1]]),
+                "shape_start": rng.choice([None] * 5 + [0, 0, 1]), "shape_end": rng.choice([None] * 8 + [4, 3]),
+                "start_const": rng.random() < 0.92, "dim_shape_known": rng.random() < 0.92}
+
+    @staticmethod
+    def build(c):
+        g = G()
+        d = c["dims"]
+        x = g.inp("x", "f32", ["N"])
+        dims = [g.inp(f"dim{k}", "i64", [1] if (c["dim_shape_known"] or k != 2) else ["one"]) for k in range(4)]
+        shape = g.op("Concat", *dims, axis=0)
+        r = g.op("Reshape", x, shape, allowzero=c["allowzero"])
+        t = g.op("Transpose", r, perm=c["perm"])
+        fs = g.op("Shape", t, start=c["shape_start"], end=c["shape_end"])
+        i64 = lambda v: g.const(np.array([v], dtype=np.int64))
+        st = i64(c["start"]) if c["start_const"] else g.inp("start", "i64", [1])
+        ins = [fs, st, i64(c["end"])]
+        if c["n_in"] >= 4:
+            ins.append(i64(c["axes"]))
+        if c["n_in"] >= 5:
+            ins.append(i64(c["steps"]))
+        fd = g.op("Slice", *ins, name="final_dim")
+        g.op("Add", fd, fd, name="out")
+        g.out("out", "i64", None)
+        return g.model()
+
+    @staticmethod
+    def line(c):
+        return " ".join(["shapeopt", f"n_in={c['n_in']}", f"start={c['start']}", f"end={c['end']}", f"axes={c['axes']}",
+                         f"steps={c['steps']}", f"allowzero={'none' if c['allowzero'] is None else c['allowzero']}",
+                         "perm=" + ",".join(map(str, c["perm"])),
+                         f"shape_start={'none' if c['shape_start'] is None else c['shape_start']}",
+                         f"shape_end={'none' if c['shape_end'] is None else c['shape_end']}",
+                         f"start_const={b(c['start_const'])}", f"dims_known={b(c['dim_shape_known'])}"])
+
+    @staticmethod
+    def fuse(model):
+        from onnxscript.rewriter.ort_fusions import shape_optimization
+
+        return shape_optimization.rules.apply_to_model(model)
+
+    @staticmethod
+    def observe(model, cnt):
+        """count + what now feeds the consumer of the (former) Slice."""
+        for n in model.graph:
+            if n.op_type == "Add" and n.outputs[0].name == "out":
+                p = n.inputs[0].producer()
+                if cnt and p is not None:
+                    ins = ",".join((v.name if v is not None else "_") for v in p.inputs)
+                    return f"count={cnt} {p.op_type}({ins})"
+        return f"count={cnt}"
+
+    @staticmethod
+    def feeds(c, rng):
+        d = c["dims"]
+        f = {"x": rand_arr(rng, [int(np.prod(d))], "f32"), "start": np.array([c["start"]], dtype=np.int64)}
+        for k in range(4):
+            f[f"dim{k}"] = np.array([d[k]], dtype=np.int64)
+        return f
+
+    @staticmethod
+    def out_dt(c):
+        return "f32"
+
+
+FAMILIES = {f.name: f for f in [Rms, Skip, Gelu, BiasGelu, Softmax, Fmm, Rope, Sdpa, Mha, I2g, Attn, Gqa, Pqkv, Mhab, Pipe,
+                                ShapeOpt]}
